@@ -545,7 +545,8 @@ def depth_cases(run):
                         continue        # only MessagePack can write a collection in key position
                     # detection in front of the parse: around every limit, and at every other depth in the thorough tier
                     near = abs(depth - lim) <= 5 and to == "json"
-                    for frm in ([fmt, "detect"] if (near or (run.tier != "quick" and depth % 2 == 0)) else [fmt]):
+                    far_detect = depth in far and to == "json" and shape in ("arr", "map")     # detection in front of nesting far beyond the limit
+                    for frm in ([fmt, "detect"] if (near or far_detect or (run.tier != "quick" and depth % 2 == 0)) else [fmt]):
                         if frm == "detect" and (fmt == "toml"):
                             continue
                         cases.append({"fmt": fmt, "shape": shape, "depth": depth, "from": frm, "to": to})
